@@ -85,13 +85,21 @@ end Ex
            non-integer exponent (real powers are outside the model's semantic domain);
            Python yields NaN/inf or raises from `math.factorial` here.
 `unequal`: the two sides of an equation differ (Python raises ValueError "did not hold").
-`unbound`: a variable has no value (Python raises ValueError). -/
+Assignments are total here; a variable without a value is the business of `Model/PyEval.lean`
+(property C05). -/
 inductive Bad where
-  | undef | unequal | unbound
+  | undef | unequal
   deriving DecidableEq, Repr, Inhabited
 
 abbrev Res := Except Bad Rat
-abbrev Env := Char → Option Rat
+abbrev Env := Char → Rat
+
+/-- Python evaluates both operands unconditionally: an exception raised anywhere wins over a
+NaN produced anywhere, whatever the order of the operands. -/
+def Bad.worse : Bad → Bad → Bad
+  | .unequal, _ => .unequal
+  | _, .unequal => .unequal
+  | _, _ => .undef
 
 instance : DecidableEq Res := fun a b =>
   match a, b with
@@ -132,18 +140,23 @@ def evalUop (o : Uop) (a : Rat) : Res :=
   | .sgn => .ok (if a < 0 then -1 else if 0 < a then 1 else 0)
   | .abs => .ok (if a < 0 then -a else a)
 
-/-- Left-to-right, first failure wins. -/
+/-- a unary operator applied to a possibly failed operand -/
+def Res.un (o : Uop) : Res → Res
+  | .ok a => evalUop o a
+  | .error e => .error e
+
+/-- a binary operator applied to two possibly failed operands -/
+def Res.bin (o : Bop) : Res → Res → Res
+  | .ok a, .ok b => evalBop o a b
+  | .error e, .ok _ => .error e
+  | .ok _, .error e => .error e
+  | .error e1, .error e2 => .error (e1.worse e2)
+
 def eval (env : Env) : Ex → Res
   | .const _ v => .ok v
-  | .var _ x => match env x with | some v => .ok v | none => .error .unbound
-  | .un _ o c => match eval env c with
-      | .ok a => evalUop o a
-      | .error e => .error e
-  | .bin _ o l r => match eval env l with
-      | .ok a => (match eval env r with
-          | .ok b => evalBop o a b
-          | .error e => .error e)
-      | .error e => .error e
+  | .var _ x => .ok (env x)
+  | .un _ o c => Res.un o (eval env c)
+  | .bin _ o l r => Res.bin o (eval env l) (eval env r)
 
 /-! ## Contexts -/
 
